@@ -62,7 +62,7 @@ theorem C09_other_verbs (red : Bool) (sp : Spec) (e : Err)
 
   `errText` is the model of the `Error()` method (the `error` stream of the correspondence
   check compares it with the real method on every case).  `RegE` (Proofs/Regular.lean) is the
-  domain: every string a layer shows on one line is ASCII, starts and ends with a non-newline
+  domain: every string a layer shows on one line is valid UTF-8 without marker runes, starts and ends with a non-newline
   byte, has no two newlines in a row, and stored redactable strings are well-formed.
   Outside that domain the two differ by design (the one-line form stops at the first
   newline of a layer; `Error()` does not) and the check decides the rest of the matrix by
@@ -84,24 +84,35 @@ theorem C09_v_eq_s (sp sp' : Spec) (e : Err) (h : sp.plainSV) (h' : sp'.plainSV)
     (hp : sp.prec = none) (hp' : sp'.prec = none) : formatVerb false sp e = formatVerb false sp' e := by
   rw [C09_v_s_direct sp e h hw hp, C09_v_s_direct sp' e h' hw' hp']
 
-/-- the hypotheses are met by a concrete three-layer chain whose text has an inner newline and a
-    hidden (hint) layer -/
-def exE : Err := .wrap [] (.withPrefix (b!"ctx")) (.wrap [] (.withHint (b!"h\n\n")) (.leaf [] (.errorString (b!"boom\nline2"))))
-theorem exE_text : errText exE = b!"ctx: boom\nline2" := by
+/-- the hypotheses are met by a concrete three-layer chain whose text has an inner newline, a
+    non-ASCII rune ("böom": C3 B6) and a hidden (hint) layer -/
+def exLeaf : Str := [98, 0xC3, 0xB6, 111, 109, 10, 108, 105, 110, 101, 50]   -- "böom\nline2"
+def exE : Err := .wrap [] (.withPrefix (b!"ctx")) (.wrap [] (.withHint (b!"h\n\n")) (.leaf [] (.errorString exLeaf)))
+theorem exE_text : errText exE = b!"ctx: " ++ exLeaf := by
   simp [exE, errText, wrapText, leafText]
   decide
+theorem exLeaf_clean : Clean exLeaf := by
+  have h1 : Clean ([0xC3, 0xB6] ++ [111, 109, 10, 108, 105, 110, 101, 50]) :=
+    Clean.cons [0xC3, 0xB6] _ ⟨by simp, by decide⟩ (by decide) (by decide)
+      (Clean_of_lt _ (by intro c hc; simp at hc; rcases hc with rfl | rfl | rfl | rfl | rfl | rfl | rfl | rfl <;> decide))
+  have h2 : Clean ([98] ++ ([0xC3, 0xB6] ++ [111, 109, 10, 108, 105, 110, 101, 50])) :=
+    Clean.cons [98] _ (IsRune_ascii 98 (by decide)) (by decide) (by decide) h1
+  exact h2
+theorem ctx_clean : Clean (b!"ctx") :=
+  Clean_of_lt _ (by intro c hc; have : c = 99 ∨ c = 116 ∨ c = 120 := by simpa using hc
+                    rcases this with rfl | rfl | rfl <;> decide)
 theorem exE_reg : RegE exE := by
   simp only [exE, RegE, LeafKind.regular, WrapKind.regular, leafText]
-  refine ⟨⟨⟨⟨by simp [Ascii], by decide, by simp [NlOKb, nl], by decide⟩, trivial⟩, trivial⟩, Or.inr ⟨?_, ?_, ⟨?_, by decide, ?_, by decide⟩⟩⟩
-  · have : lexL (b!"ctx") = [.b 99, .b 116, .b 120] := by decide
-    rw [this]; intro x hx; simp at hx; rcases hx with rfl | rfl | rfl <;> simp
+  refine ⟨⟨⟨⟨exLeaf_clean, by decide, by simp [exLeaf, NlOKb, nl], by decide⟩, trivial⟩, trivial⟩, Or.inr ⟨?_, ?_, ⟨?_, by decide, ?_, by decide⟩⟩⟩
+  · have : lexL (b!"ctx") = bytesT (b!"ctx") := by decide
+    rw [this]; exact GoodT_bytesT _ ctx_clean
   · have : lexL (b!"ctx") = [.b 99, .b 116, .b 120] := by decide
     rw [this]; simp [LW, lw]
   · have : stripMarkers (b!"ctx") = b!"ctx" := by decide
-    rw [this]; simp [Ascii]
+    rw [this]; exact ctx_clean
   · have : stripMarkers (b!"ctx") = b!"ctx" := by decide
     rw [this]; simp [NlOKb, nl]
-example : render false false exE = b!"ctx: boom\nline2" := by rw [C09_v_is_error _ exE_reg, exE_text]
+example : render false false exE = b!"ctx: " ++ exLeaf := by rw [C09_v_is_error _ exE_reg, exE_text]
 
 /-! ### the verbose form: one numbered entry per visible layer, then the types line -/
 
